@@ -108,6 +108,10 @@ def generate(seed, tier, index):
                     "via": rng.choice(["state", "venable", "genable"])})
     if rng.random() < 0.25:
         ups.append({"op": "partial_up", "len": max(min(L, 1200), 50), "cut": rng.random()})
+        if rng.random() < 0.5:
+            # an upload that breaks off after more than the server's 2048-character limit, followed on the SAME connection by
+            # small complete messages, each arriving whole: they must get through once the wreck has been cleared away
+            ups[-1].update(len=rng.choice([2400, 3000, 5000]), cut=rng.uniform(0.75, 0.97), same_conn_followers=rng.randint(3, 5))
     rng.shuffle(ups)
     steps += ups
     if rng.random() < 0.35 and not big:
@@ -500,6 +504,19 @@ def execute(scen):
                 sim.settle()
                 faults["partial_blob_upload"] = faults.get("partial_blob_upload", 0) + 1
                 follow(f"half an upload ({k} of {len(xml)} chars) left pending on another connection", facts)
+                if not viol and st.get("same_conn_followers"):
+                    last = None
+                    for j in range(st["same_conn_followers"]):
+                        serial[0] += 1
+                        last = f"behind{serial[0]}"
+                        sim.do(up.send, f'<newTextVector device="CAM" name="TXT"><oneText name="T0">{last}</oneText></newTextVector>\n')
+                        sim.settle()
+                    got_t0 = stack.el_obj("CAM", "TXT", "T0").value
+                    probes["complete_messages_behind_a_wrecked_upload"] = probes.get("complete_messages_behind_a_wrecked_upload", 0) + 1
+                    if got_t0 != last:
+                        viol.append({"clause": "C08.follow", "detail": f"{st['same_conn_followers']} complete messages sent on the same connection behind an upload that broke off after {k} characters "
+                                     f"never reached the driver (T0 holds {got_t0!r}, the last one carried {last!r})", "facts": dict(facts, same_connection=True)})
+                        break
                 if not viol:
                     sim.do(up.close)
                     sim.settle()
